@@ -104,6 +104,10 @@ func (c *APICall) String() string {
 	if c.Fault != "" {
 		s += " fault=" + c.Fault
 	}
+	if set, ok := c.In.(*asv1.StatefulSet); ok && c.Sub == "status" {
+		st := set.Status
+		s += fmt.Sprintf(" {gen=%d r=%d rdy=%d cur=%d upd=%d %s/%s}", st.ObservedGeneration, st.Replicas, st.ReadyReplicas, st.CurrentReplicas, st.UpdatedReplicas, st.CurrentRevision, st.UpdateRevision)
+	}
 	return s + " -> " + c.Reason()
 }
 
